@@ -174,7 +174,7 @@ func (r *Router) match(method, path string) (rt *Route, ps Params) {
 
 				if ps, ok := rs[i].matchRegex(path); ok {
 					// ret = r.newMatchResult(route, ps)
-					r.cacheDynamicRoute(key, ps, rs[i])
+					r.cacheDynamicRoute(method+path, ps, rs[i])
 					return rs[i], ps
 				}
 			}
